@@ -99,12 +99,92 @@ func body(writers int, preload int) func(s *vsched.Sched) {
 	}
 }
 
+// churn: several subscribers of one prefix come and go; the one that stays must keep observing
+// the latest generated key whatever the others do.
+func churnBody() func(s *vsched.Sched) {
+	return func(s *vsched.Sched) {
+		s.Explore(false)
+		env := oxc.NewEnv(s)
+		kvf := oxc.NewObsFactory(env.Dir)
+		lc, err := server.NewLeaderController(server.Config{NotificationsRetentionTime: time.Hour}, "ns", 1, oxc.NewNet(), env.WalFactory("n1", 64*1024, true), kvf)
+		if err == nil {
+			_, err = lc.NewTerm(&proto.NewTermRequest{Namespace: "ns", Shard: 1, Term: 1, Options: &proto.NewTermOptions{EnableNotifications: true}})
+		}
+		if err == nil {
+			_, err = lc.BecomeLeader(context.Background(), &proto.BecomeLeaderRequest{Namespace: "ns", Shard: 1, Term: 1, ReplicationFactor: 1, FollowerMaps: map[string]*proto.EntryId{}})
+		}
+		if err != nil {
+			s.Fail("harness-setup", err.Error())
+			return
+		}
+		type subscriber struct {
+			last   string
+			cancel context.CancelFunc
+		}
+		start := func() *subscriber {
+			sb := &subscriber{}
+			var ctx context.Context
+			ctx, sb.cancel = context.WithCancel(context.Background())
+			vsched.Go(func() {
+				sw, err := lc.GetSequenceUpdates(ctx, &proto.GetSequenceUpdatesRequest{Shard: 1, Key: "p"})
+				if err != nil {
+					return
+				}
+				// like the public RPC handler: the waiter is closed when the subscriber goes away
+				defer func() { _ = sw.Close() }()
+				for {
+					k, err := sw.Receive(ctx)
+					if err != nil || k == "" {
+						return
+					}
+					sb.last = k
+				}
+			})
+			return sb
+		}
+		s1 := start()
+		s.Settle()
+		s2 := start()
+		s.Settle()
+		s.Explore(true)
+		// the first subscriber leaves, a third arrives, a key is generated: in any order
+		vsched.Go(func() { s1.cancel() })
+		var s3 *subscriber
+		vsched.Go(func() { s3 = start() })
+		key := ""
+		vsched.Go(func() {
+			r, err := lc.WriteBlock(context.Background(), seqPut())
+			if err == nil && r.Puts[0].Status == proto.Status_OK {
+				key = r.Puts[0].GetKey()
+			}
+		})
+		s.Settle()
+		// then the third leaves too and one more key is generated
+		if s3 != nil {
+			s3.cancel()
+		}
+		s.Settle()
+		if r, err := lc.WriteBlock(context.Background(), seqPut()); err == nil && r.Puts[0].Status == proto.Status_OK {
+			key = r.Puts[0].GetKey()
+		}
+		s.Settle()
+		s.Explore(false)
+		if key != "" && s2.last != key {
+			s.Fail("subscriber-missed-latest-key", fmt.Sprintf("a subscriber that stayed connected while others came and went holds %q at quiescence, the highest generated key is %q", s2.last, key))
+		}
+		s.Data = fmt.Sprintf("last=%s key=%s", s2.last, key)
+		s2.cancel()
+		_ = lc.Close()
+	}
+}
+
 func scenarios(tier string) []sched.Scenario {
 	cfg := vsched.Config{MaxSteps: 50000}
 	out := []sched.Scenario{
 		{Name: "1writer-empty", Cfg: cfg, MaxDev: 2, Body: body(1, 0)},
 		{Name: "1writer-preloaded", Cfg: cfg, MaxDev: 2, Body: body(1, 1)},
 		{Name: "2writers-preloaded", Cfg: cfg, MaxDev: 2, Body: body(2, 1)},
+		{Name: "subscriber-churn", Cfg: cfg, MaxDev: 2, Body: churnBody()},
 	}
 	if tier == "thorough" {
 		out[0].MaxDev = 3
